@@ -292,6 +292,39 @@ stream_lastclock(struct stream *stream)
 	return stream->lastclock;
 }
 
+/* Returns the size of the event ev, which is followed by at most left
+ * bytes in the stream, or -1 if the event doesn't fit. The sizes come from
+ * disk, so the header and the jumbo size are only read when they are
+ * inside the stream. */
+static int64_t
+next_ev_size(const struct ovni_ev *ev, int64_t left)
+{
+	int64_t size = (int64_t) sizeof(struct ovni_ev_header);
+
+	if (left < size)
+		return -1;
+
+	if (ev->header.flags & OVNI_EV_JUMBO) {
+		size += (int64_t) sizeof(ev->payload.jumbo.size);
+
+		if (left < size)
+			return -1;
+
+		size += (int64_t) ev->payload.jumbo.size;
+
+		/* The size must fit in the int of ovni_ev_size() */
+		if (size > INT_MAX)
+			return -1;
+	} else {
+		size += ovni_payload_size(ev);
+	}
+
+	if (left < size)
+		return -1;
+
+	return size;
+}
+
 int
 stream_step(struct stream *stream)
 {
@@ -322,7 +355,7 @@ stream_step(struct stream *stream)
 	stream->cur_ev = (struct ovni_ev *) &stream->buf[stream->offset];
 
 	/* Ensure the event fits */
-	if (stream->offset + ovni_ev_size(stream->cur_ev) > stream->size) {
+	if (next_ev_size(stream->cur_ev, stream->size - stream->offset) < 0) {
 		err("stream '%s' ends with incomplete event",
 				stream->relpath);
 		return -1;
